@@ -15,6 +15,7 @@ import (
 	agglayertypes "github.com/agglayer/aggkit/agglayer/types"
 	"verif/h/mc"
 	"verif/h/ref"
+	"verif/h/storekit"
 )
 
 // Opts selects the alphabet and the oracle clauses of a property.
@@ -39,6 +40,9 @@ type Opts struct {
 	// NoAdvance drops the single-step verdict event (the Agglayer-side situations are then nothing,
 	// pending, in error, settled).
 	NoAdvance bool
+	// ReadFaults > 0: the send iterations are also offered with their k-th SELECT refused, k = 1..ReadFaults (an iteration that
+	// compiles fewer statements is the plain iteration: same state, merged by the search)
+	ReadFaults int
 	// StorageFaultsOnly: of the crash alphabet only the one-shot storage faults of the send path (C02's fault units)
 	StorageFaultsOnly bool
 }
@@ -66,9 +70,9 @@ type Exec struct {
 	probe       func() // bounded-progress probe to run after key and enabled events are fixed
 	// the most recent restart of this history completed its start-up without a contradiction: the node must stay able
 	// to proceed in every later state too (e.g. when the certificate it adopted at start-up ends InError afterwards)
-	restartedOK              bool
+	restartedOK             bool
 	restartWhy, restartDesc string
-	tmpl        []byte // an empty certificate DB as the real constructor creates it
+	tmpl                    []byte // an empty certificate DB as the real constructor creates it
 }
 
 var execSeq atomic.Int64
@@ -450,7 +454,24 @@ func (x *Exec) apply(ev string) {
 		} else if strings.HasPrefix(arg, "fault@") {
 			fmt.Sscanf(strings.TrimPrefix(arg, "fault@"), "%d", &faultK)
 		}
+		readK := 0
+		var disarm func() (int, bool)
+		if strings.HasPrefix(arg, "readfault@") {
+			// the readK-th SELECT any store of the node compiles during this iteration is refused (storekit's statement
+			// gate in failing-read mode): an error that is neither "no rows" nor a cancellation
+			fmt.Sscanf(strings.TrimPrefix(arg, "readfault@"), "%d", &readK)
+			disarm = storekit.GateReadFailsAt(readK)
+		}
 		crashed := x.tick(name == "EpochTick", crashAt, faultK)
+		if disarm != nil {
+			x.budgetUsed++
+			if _, fired := disarm(); fired {
+				x.witness("read-fault-fired")
+				x.k.tracef("read fault: SELECT number %d of the iteration was refused", readK)
+			} else {
+				x.witness("read-fault-not-reached")
+			}
+		}
 		if crashAt != "" {
 			x.budgetUsed++
 			if crashed {
@@ -599,6 +620,11 @@ func (x *Exec) enabled() []string {
 				}
 				for f := 1; f <= nf; f++ {
 					ev = append(ev, fmt.Sprintf("%s/fault@%d", k, f))
+				}
+				if x.Opt.ReadFaults > 0 && k == "EpochTick" {
+					for f := 1; f <= x.Opt.ReadFaults; f++ {
+						ev = append(ev, fmt.Sprintf("%s/readfault@%d", k, f))
+					}
 				}
 			}
 		}
